@@ -86,7 +86,7 @@ func (s *Stepper) Commit() []byte {
 	n := s.N
 	c := n.App.Commit()
 	if err := n.Indexer.AddBatch(s.batch); err != nil {
-		panic(err)
+		panic(fmt.Sprintf("tx indexer AddBatch at height %d: %v", s.h, err))
 	}
 	n.Height, n.LastBlockID, n.AppHash, n.Time = s.h, s.bid, c.Data, s.blk.Time.UTC()
 	return c.Data
